@@ -64,6 +64,9 @@ func ReadFile(r io.Reader) (File, []string, error) {
 				if err := expectAnyOfNext(tr, tokenKindCloseSquare); err != nil {
 					return f, warnings, err
 				}
+				// like [opcode(...)], [flags] may stand on a line of its own between
+				// a doc comment and the enum without detaching the comment
+				optNewline(tr)
 			}
 			continue
 		case tokenKindEnum:
